@@ -15,6 +15,7 @@ NAMES = ["a", "b", "cc", "data", "x1", "q", "long_parameter_name_number_one", "a
          "yet_another_very_long_parameter_name_to_force_wrapping", "value_with_a_name_that_is_forty_chars_long"]
 FNAMES = ["f", "g", "compute_something_rather_long_named_function", "h"]
 HEADER = ("from typing import *\nfrom fxh import Base as Helper\nUserId = NewType('UserId', int)\n\n"
+          "import functools\n\ndef wrapdeco(f):\n    @functools.wraps(f)\n    def wrapper(*a, **k):\n        return f(*a, **k)\n    return wrapper\n\n"
           "class myclassmethod(classmethod):\n    pass\n\nclass mystaticmethod(staticmethod):\n    pass\n\nclass myproperty(property):\n    pass\n\n")
 
 
@@ -47,6 +48,7 @@ def func(draw, i):
     return dict(i=i, ps=ps if where not in ("property", "subproperty") else [], varargs=draw(st.sampled_from([None, None, "args"])) if where not in ("property", "subproperty") else None,
                 varkw=draw(st.sampled_from([None, None, "kwargs"])) if where not in ("property", "subproperty") else None, where=where,
                 second_trace=draw(st.sampled_from([None, None, "exception", "exception", "other-return"])),
+                wrapdeco=draw(st.sampled_from([False, False, False, True])),
                 ret_anno=draw(st.sampled_from(ANNOS)), outcome=draw(st.sampled_from(["return", "yield", "yield+return", "yield+none", "exception"])),
                 ret_traced=draw(st.sampled_from([1, 2, 3, 5, 6, 9])), yield_traced=draw(st.sampled_from([1, 2, 3, 5])),
                 recv_anno=draw(st.sampled_from([None, None, '"K"', "Any"])),
@@ -89,8 +91,10 @@ def render(funcs, annotate_receiver=False):
         gen = w in ("gen", "genmethod")
         body = "yield 1" if gen else "pass"
         a = "async " if w in ("async", "asyncmethod") else ""
+        wd = "@wrapdeco\n" if f.get("wrapdeco") and w in ("top", "async", "gen") else ""
+        wdm = "    @wrapdeco\n" if f.get("wrapdeco") and w in ("method", "asyncmethod", "genmethod") else ""
         if w in ("top", "async", "gen"):
-            top.append(f"{a}def {f['fname']}({sig(f, None)}){ret}:\n    {body}\n")
+            top.append(f"{wd}{a}def {f['fname']}({sig(f, None)}){ret}:\n    {body}\n")
         elif w == "inner":
             inner.append(f"        def {f['fname']}({sig(f, 'self')}){ret}:\n            pass\n")
         elif w == "deep":
@@ -99,7 +103,7 @@ def render(funcs, annotate_receiver=False):
             dec = {"classmethod": "    @classmethod\n", "staticmethod": "    @staticmethod\n", "property": "    @property\n",
                    "subclassmethod": "    @myclassmethod\n", "substaticmethod": "    @mystaticmethod\n", "subproperty": "    @myproperty\n"}.get(w, "")
             recv = {"classmethod": "cls", "staticmethod": None, "subclassmethod": "cls", "substaticmethod": None}.get(w, "self")
-            cls.append(dec + f"    {a}def {f['fname']}({sig(f, recv)}){ret}:\n        {body}\n")
+            cls.append(dec + wdm + f"    {a}def {f['fname']}({sig(f, recv)}){ret}:\n        {body}\n")
     L += top
     L.append("class K:")
     L += cls or ["    pass"]
@@ -113,14 +117,15 @@ def render(funcs, annotate_receiver=False):
 def live_function(mod, f):
     w = f["where"]
     if w in ("top", "async", "gen"):
-        return getattr(mod, f["fname"]), ()
+        fn = getattr(mod, f["fname"])
+        return getattr(fn, "__wrapped__", fn), ()  # the tracer attributes a decorated call to the function whose code ran
     if w == "inner":
         return getattr(mod.K.Inner, f["fname"]), ("K", "Inner")
     if w == "deep":
         return getattr(mod.K.Inner.Deep, f["fname"]), ("K", "Inner", "Deep")
     raw = mod.K.__dict__[f["fname"]]
     fn = raw.__func__ if w in ("classmethod", "staticmethod", "subclassmethod", "substaticmethod") else (raw.fget if w in ("property", "subproperty") else raw)
-    return fn, ("K",)
+    return getattr(fn, "__wrapped__", fn), ("K",)
 
 
 def resolve_traced(idx, k=3):
